@@ -736,3 +736,76 @@ pub fn h128<T: Hash>(t: &T) -> u128 {
 }
 
 pub type SharedFlag = Arc<AtomicBool>;
+
+// ------------------------------------------------------------------------------------------
+// exhaustive sweeps over finite case lists (parallel)
+// ------------------------------------------------------------------------------------------
+
+pub struct SweepResult {
+    pub cases: u64,
+    pub distinct_outcomes: u64,
+    /// (case index, violation), first per signature
+    pub found: Vec<(usize, Violation)>,
+}
+
+/// Runs `f` on every case index 0..n on all threads. `f` returns an outcome hash and an optional violation.
+pub fn sweep<F>(n: usize, f: F) -> SweepResult
+where
+    F: Fn(usize) -> (u64, Option<Violation>) + Sync,
+{
+    let next = AtomicUsize::new(0);
+    let outcomes = ShardedSet::new();
+    let found: Mutex<BTreeMap<String, (usize, Violation)>> = Mutex::new(BTreeMap::new());
+    let t = threads().max(1);
+    std::thread::scope(|s| {
+        for _ in 0..t {
+            s.spawn(|| loop {
+                let i = next.fetch_add(64, Ordering::Relaxed);
+                if i >= n {
+                    return;
+                }
+                for c in i..(i + 64).min(n) {
+                    let (o, v) = f(c);
+                    outcomes.insert(o);
+                    if let Some(v) = v {
+                        let mut g = found.lock().unwrap();
+                        let better = match g.get(&v.signature) {
+                            None => true,
+                            Some((old, _)) => c < *old,
+                        };
+                        if better {
+                            g.insert(v.signature.clone(), (c, v));
+                        }
+                    }
+                }
+            });
+        }
+    });
+    SweepResult {
+        cases: n as u64,
+        distinct_outcomes: outcomes.len(),
+        found: found.into_inner().unwrap().into_values().collect(),
+    }
+}
+
+/// all permutations of 0..n (n small)
+pub fn permutations(n: usize) -> Vec<Vec<usize>> {
+    fn rec(cur: &mut Vec<usize>, used: &mut Vec<bool>, n: usize, out: &mut Vec<Vec<usize>>) {
+        if cur.len() == n {
+            out.push(cur.clone());
+            return;
+        }
+        for i in 0..n {
+            if !used[i] {
+                used[i] = true;
+                cur.push(i);
+                rec(cur, used, n, out);
+                cur.pop();
+                used[i] = false;
+            }
+        }
+    }
+    let mut out = vec![];
+    rec(&mut vec![], &mut vec![false; n], n, &mut out);
+    out
+}
